@@ -117,5 +117,5 @@ pub fn catch_msg<T>(f: impl FnOnce() -> T) -> (Result<T, String>, Vec<String>) {
     let r = std::panic::catch_unwind(std::panic::AssertUnwindSafe(f));
     std::panic::set_hook(prev);
     let seen = PANICS.lock().unwrap().clone();
-    (r.map_err(|_| seen.last().cloned().unwrap_or_else(|| "panic".to_string())), seen)
+    (r.map_err(|_| if seen.is_empty() { "panic".to_string() } else { seen.iter().take(3).cloned().collect::<Vec<_>>().join(" <- ") }), seen)
 }
